@@ -192,6 +192,7 @@ pub fn run(key: &str, a: &[String]) -> String {
         "freezer_k3" => crate::freezer::k3(a),
         "freezer_k6" => crate::freezer::k6(a),
         "freezer_k7" => crate::freezer::k7(a),
+        "freezer_k8" => crate::freezer::k8(a),
         _ => panic!("unknown key {key}"),
     }
 }
